@@ -91,6 +91,7 @@ PROPS = {
     ),
     "C02": dict(
         groups=[("req", 1500, 100000), ("paged", 300, 20000), ("conn", 300, 20000)],
+        gen=["handle"],
         exact_lanes=["req", "paged"],
         rule="sequences of 1-6 real operations (all 11 kinds, arbitrary DNs incl. non-ASCII and 127/128/129/300-byte strings, byte values, empty and multi-valued lists, "
              "0-3 controls with/without criticality and value, timeouts, search options with boundary limits, unparsable filters, AddNoValues rejections, unbind last) on one handle over the "
